@@ -299,9 +299,14 @@ def stream_case(case, part):
     widths = [WIDTHS[i] for i in order]
     ending = case["ending"]
     lines = []
-    for number, row in enumerate(DATA):
+    for number, row in enumerate(DATA[: case.get("rows", 3)]):
         cells = [row[i] for i in order]
-        line = "".join(c.ljust(w) for c, w in zip(cells, widths)) if fmt == "fixed" else ",".join(cells)
+        if fmt == "fixed":
+            line = "".join(c.ljust(w) for c, w in zip(cells, widths))
+        elif case.get("quoted"):
+            line = ",".join('"%s"' % c for c in cells)
+        else:
+            line = ",".join(cells)
         lines.append(line + (["\n", "\r", "\r\n"][number % 3] if ending == "mixed" else ending))
     text = "".join(lines)
     mutation = case.get("mutation")
@@ -309,7 +314,10 @@ def stream_case(case, part):
         at = mutation[1]
         if at >= len(text):
             return
-        text = text[:at] + (mutation[2] if mutation[0] == "replace" else "") + text[at + 1:]
+        if mutation[0] == "insert":
+            text = text[:at] + mutation[2] + text[at:]
+        else:
+            text = text[:at] + (mutation[2] if mutation[0] == "replace" else "") + text[at + 1:]
     part.evaluations += 1
     part.nontrivial += 1
     leaks = []
@@ -322,7 +330,7 @@ def stream_case(case, part):
     part.state((fmt, "stream", tuple(OUTCOMES)))
     part.outcome("leak" if leaks else "clean")
     for where, exception in leaks:
-        part.fail("%s|stream:%s:%s|%s|%s|%s" % (fmt, "flag-first" if case["flag_first"] else "flag-last", {"\n": "lf", "\r": "cr", "\r\n": "crlf"}.get(ending, ending), where, exception,
+        part.fail("%s|stream:%s%s:%s|%s|%s|%s" % (fmt, "flag-first" if case["flag_first"] else "flag-last", ":quoted" if case.get("quoted") else "", {"\n": "lf", "\r": "cr", "\r\n": "crlf"}.get(ending, ending), where, exception,
                                                 "intact" if not mutation else mutation[0]), case, "success, InterfaceError or DataError", [where, exception])
 
 
@@ -344,6 +352,16 @@ def stream_cases():
                     cases.append({"format": fmt, "flag_first": flag_first, "ending": ending, "mutation": ["delete", at]})
                     for character in ("x", "\r", "\n", '"'):
                         cases.append({"format": fmt, "flag_first": flag_first, "ending": ending, "mutation": ["replace", at, character]})
+    # delimited data with every item quoted, one or three rows: damage inside the very first physical line
+    for rows in (1, 3):
+        for ending in ("\n", "\r\n", ""):
+            base = {"format": "delimited", "flag_first": False, "ending": ending, "quoted": True, "rows": rows}
+            cases.append(dict(base))
+            for at in range(0, 62 * rows):
+                cases.append(dict(base, mutation=["delete", at]))
+                for character in ("x", '"', ",", "\n"):
+                    cases.append(dict(base, mutation=["replace", at, character]))
+                    cases.append(dict(base, mutation=["insert", at, character]))
     return cases
 
 
